@@ -12,7 +12,7 @@ RULE = (
     "Hypothesis-generated pairs of 1-3-D label arrays (free voxel labelling and boxes, sides <=16/8/5; "
     "run-length encoded 1-D arrays of up to 140k voxels; 2-D<=12x12 / 3-D<=6^3 for clDice) x dtype in "
     "bool/uint8-64/int8-64/float32/64 x reference label x prediction label or list of 1-4 labels (present, "
-    "absent, repeated, or not representable in the array dtype: 256 in uint8, 2^32+1; a quarter of the cases with all labels shifted by 1000 ... 2^40 in 32/64-bit dtypes; negative labels are outside the documented domain) or no selection on binary masks. Oracle: set formulas on coordinate sets. A case is "
+    "absent, repeated, or not representable in the array dtype: 256 in uint8, 2^32+1; a quarter of the cases with all labels shifted by 1000 ... 2^40 in 32/64-bit dtypes; negative labels are outside the documented domain) or no selection (0/1 masks; since fix D18 also masks with another foreground value). Oracle: set formulas on coordinate sets. A case is "
     "non-trivial when both selected masks are non-empty and neither equal nor disjoint; distinct = distinct "
     "canonical JSON of the case."
 )
@@ -67,17 +67,25 @@ def sel_case(draw):
 def bin_case(draw):
     pred, ref = draw(gen.pair(k=3))
     dtype = draw(st.sampled_from(["bool"] + DTYPES))
-    return {"kind": "bin", "dtype": dtype, "ref": gen.binar(ref).tolist(), "pred": gen.binar(pred).tolist()}
+    case = {"kind": "bin", "dtype": dtype, "ref": gen.binar(ref).tolist(), "pred": gen.binar(pred).tolist()}
+    if dtype != "bool" and draw(st.integers(0, 2)) == 0:
+        # masks whose foreground value is not 1 (0/255 masks, a label map handed over as it is): without a label
+        # selection every non-zero voxel is foreground
+        case["values"] = [draw(st.sampled_from([2, 3, 100, 127])), draw(st.sampled_from([1, 2, 5, 127]))]
+    return case
 
 
 @st.composite
-def rle_case(draw):
+def rle_case(draw, huge=False):
     """1-D arrays given as runs; total length up to ~140k voxels (accumulator width)."""
     nruns = draw(st.integers(1, 6))
     runs = []
     for _ in range(nruns):
         n = draw(st.sampled_from([1, 3, 255, 256, 257, 4097, 32768, 65535, 65536, 70001]))
         runs.append([draw(st.integers(0, 1)), draw(st.integers(0, 1)), n])
+    if huge and draw(st.integers(0, 7)) == 0:
+        # one run of more than 2^24 voxels: counts that a 32-bit float accumulator cannot hold exactly
+        runs.insert(draw(st.integers(0, len(runs))), [1, draw(st.integers(0, 1)), 2**24 + draw(st.sampled_from([1, 3, 5]))])
     dtype = draw(st.sampled_from(["bool", "uint8", "int8", "uint16", "float32", "int64"]))
     return {"kind": "rle", "dtype": dtype, "runs": runs}
 
@@ -107,7 +115,7 @@ def searches(tier):
         ("sel", sel_case(), n * 5 // 10),
         ("bin", bin_case(), n * 2 // 10),
         ("cl", cl_case(), n * 2 // 10),
-        ("rle", rle_case(), max(8, n // 40)),
+        ("rle", rle_case(huge=tier == "thorough"), max(8, n // 40)),
     ]
 
 
@@ -118,6 +126,8 @@ def _arrays(case):
         return r.astype(case["dtype"]), p.astype(case["dtype"])
     lay = case.get("layout", "C")
     r, p = np.array(case["ref"]), np.array(case["pred"])
+    if case.get("values"):
+        r, p = r * case["values"][0], p * case["values"][1]
     if case.get("offset"):
         r, p = np.where(r != 0, r + case["offset"], 0), np.where(p != 0, p + case["offset"], 0)
     if case.get("pred_dtype"):
